@@ -2557,6 +2557,78 @@ impl DB {
     pub fn verif_options(&self) -> &DbOptions {
         &self.options
     }
+
+    /**
+    Verification accessor: a database iterator over the given children instead of the children
+    the current state of the database would give it.
+
+    The children are real child iterators: a memtable iterator over a fresh skip list, the
+    iterator of one table file (the way level 0 files are iterated) or the concatenating iterator
+    over a list of table files (the way levels >= 1 are iterated). The table files must exist in
+    the database's data directory.
+    */
+    pub fn verif_iterator_over(
+        &self,
+        children: Vec<crate::verif::ChildSpec>,
+        snapshot: u64,
+    ) -> RainDBResult<DatabaseIterator> {
+        let read_options = ReadOptions::default();
+        let mut iterators: Vec<Box<dyn RainDbIterator<Key = InternalKey, Error = RainDBError>>> =
+            vec![];
+        for child in children {
+            match child {
+                crate::verif::ChildSpec::Mem(entries) => {
+                    let memtable = SkipListMemTable::new();
+                    for (user_key, sequence, op, value) in entries {
+                        let operation = if op == 1 {
+                            Operation::Put
+                        } else {
+                            Operation::Delete
+                        };
+                        memtable.insert(InternalKey::new(user_key, sequence, operation), value);
+                    }
+                    iterators.push(memtable.iter());
+                }
+                crate::verif::ChildSpec::Table(file_number) => {
+                    let table = self.table_cache.find_table(file_number)?;
+                    iterators.push(Box::new(Table::iter_with(table, read_options.clone())));
+                }
+                crate::verif::ChildSpec::Level(files) => {
+                    let mut file_list: Vec<Arc<FileMetadata>> = vec![];
+                    for (file_number, size, smallest, largest) in files {
+                        let mut metadata = FileMetadata::new(file_number);
+                        metadata.set_file_size(size);
+                        let to_key = |raw: (Vec<u8>, u64, u8)| {
+                            let operation = if raw.2 == 1 {
+                                Operation::Put
+                            } else {
+                                Operation::Delete
+                            };
+                            InternalKey::new(raw.0, raw.1, operation)
+                        };
+                        metadata.set_smallest_key(Some(to_key(smallest)));
+                        metadata.set_largest_key(Some(to_key(largest)));
+                        file_list.push(Arc::new(metadata));
+                    }
+                    iterators.push(Box::new(
+                        crate::versioning::file_iterators::FilesEntryIterator::new(
+                            file_list,
+                            Arc::clone(&self.table_cache),
+                            read_options.clone(),
+                        ),
+                    ));
+                }
+            }
+        }
+
+        Ok(DatabaseIterator::new(
+            self.generate_portable_state(),
+            MergingIterator::new(iterators),
+            snapshot,
+            0,
+            Arc::clone(&self.compaction_worker),
+        ))
+    }
 }
 
 /// Various statistics and summaries that can be requested from the database.
